@@ -36,6 +36,8 @@ KINDS = {
     # C14 variants: a pixel of exactly 0.0 is the minimum (z) / the data are negated and 0.0 is the maximum (n)
     "fits-F32z": ("fits", "f4", 0),
     "fits-F32n": ("fits", "f4", 0),
+    # c: some leaves are degenerate - a constant tile, or a single finite pixel - and hold the extremes
+    "fits-F32c": ("fits", "f4", 0),
 }
 
 
@@ -62,6 +64,13 @@ def leaf(tid, kind):
                 a[200, 200 + tid % 40] = 0.0  # exactly zero: the extreme of this leaf
             if kind.endswith("n"):
                 a = -a
+        if kind.endswith("c"):
+            if tid % 3 == 0:
+                a[...] = 90000.0 + tid  # constant leaf above every other leaf's range (DATAMIN == DATAMAX)
+            elif tid % 3 == 1:
+                a[...] = np.nan
+                a[17, 33 + tid] = -5000.0 - tid  # one finite pixel, below every other leaf's range
+                und = np.zeros_like(und)
         a[und] = np.nan
     elif ch == 0:
         top = 250 if dt == "u1" else 30000
